@@ -719,3 +719,106 @@ def value_path(B, op, max_hops=24):
         else:
             break
     return out
+
+
+# ------------------------------------------------------------ path-sensitive values ----
+def acyclic_paths(B, start=0, limit=4000):
+    """All loop-free paths of normal (non-unwind) edges from `start` to a return. None when there are more than `limit`."""
+    out = []
+    stack = [(start, (start,))]
+    while stack:
+        bb, path = stack.pop()
+        t = B.blocks[bb]['t']
+        if t['k'] == 'ret':
+            out.append(path)
+            if len(out) > limit:
+                return None
+            continue
+        for s in B.succ(bb):
+            if s in path or B.is_unreachable_block(s):
+                continue
+            stack.append((s, path + (s,)))
+    return out
+
+
+def path_eval(B, path):
+    """Values along ONE path: every local is bound to the expression last assigned to it on this path, so a variable
+    assigned differently in two branches has exactly the value of the branch taken.  Returns (env, events) with
+    events = [(bb, callee names, [argument expressions], result expression)] in path order.
+    Expressions: ('arg', n) ('local', n) ('const', v) ('call', name, bb, args) ('bin', op, a, b) ('un', op, a)
+    ('cast', to, a) ('field', base, name) ('agg', what, ops) ('discr', a) ('opaque', bb)."""
+    argc = B.b['argc']
+    env = {}
+
+    def base(l):
+        if l in env:
+            return env[l]
+        return ('arg', l) if 1 <= l <= argc else ('local', l)
+
+    def place(pl):
+        e = base(pl['l'])
+        for p in pl.get('p') or []:
+            if p == '*':
+                continue
+            if isinstance(p, dict) and ('n' in p or 'f' in p):
+                nm = p.get('n', str(p.get('f')))
+                if e[0] == 'bin' and e[1].endswith('WithOverflow'):
+                    e = ('bin', e[1][:-len('WithOverflow')], e[2], e[3]) if str(nm) == '0' else ('opaque', 'overflow-flag')
+                elif e[0] == 'agg' and str(nm).isdigit() and int(nm) < len(e[2]):
+                    e = e[2][int(nm)]
+                else:
+                    e = ('field', e, str(nm))
+            elif isinstance(p, dict) and 'dc' in p:
+                e = ('field', e, 'as:' + str(p.get('dc')))
+            else:
+                e = ('field', e, str(p))
+        return e
+
+    def operand(op):
+        if op['k'] == 'c':
+            return ('const', op.get('v', op.get('s', op.get('fn'))))
+        return place(op['pl'])
+    events = []
+    for bb in path:
+        blk = B.blocks[bb]
+        for st in blk['s']:
+            if st['k'] != '=':
+                continue
+            rv = st['rv']
+            k = rv['k']
+            if k == 'use':
+                e = operand(rv['op'])
+            elif k in ('ref', 'rawptr'):
+                e = place(rv['pl'])
+            elif k == 'cast':
+                e = ('cast', rv.get('to'), operand(rv['op']))
+            elif k == 'bin':
+                e = ('bin', rv['op'], operand(rv['a']), operand(rv['b']))
+            elif k == 'un':
+                e = ('un', rv['op'], operand(rv['a']))
+            elif k == 'agg':
+                e = ('agg', rv.get('var') or rv.get('ak'), tuple(operand(o) for o in rv['ops']))
+            elif k == 'discr':
+                e = ('discr', place(rv['pl']))
+            else:
+                e = ('opaque', bb)
+            if not st['pl'].get('p'):
+                env[st['pl']['l']] = e
+        t = blk['t']
+        if t['k'] == 'call':
+            names = callee_names(t)
+            args = tuple(operand(a) for a in t['args'])
+            e = ('call', names[0] if names else '?', bb, args)
+            if not t['dst'].get('p'):
+                env[t['dst']['l']] = e
+            events.append((bb, names, args, e))
+    return env, events
+
+
+def expr_mentions(e, pred):
+    """does pred hold for e or any sub-expression?"""
+    if pred(e):
+        return True
+    if isinstance(e, tuple):
+        return any(expr_mentions(x, pred) for x in e if isinstance(x, tuple))
+    return False
